@@ -488,6 +488,7 @@ func runC07(c *eng.Ctx) {
 
 	// ---- 11. freeze before the metadata flush ------------------------------------------------------------------------------------
 	freezeOrderRule(c)
+	sequenceInsideWriteBracket(c)
 }
 
 // freezeOrderRule (C07#11, also C09#11): on every call chain, the store that freezes a family's
@@ -560,6 +561,53 @@ func freezeOrderRule(c *eng.Ctx) {
 			walk(top, nil, 4)
 			c.Check(true, "freeze-site:"+p.FuncKey(top), nil, top, "freeze site enumerated; its call chains were examined for a preceding metadata flush", "")
 		}
+	})
+}
+
+// sequenceInsideWriteBracket (F28): dataFamily.Flush freezes the memory database and captures f.seq in one hold of the family
+// mutex, and memoryDatabase.FlushFamilyTo then WAITS for the writers that are still inside their AcquireWrite..CompleteWrite
+// bracket — so the rows of an entry whose WriteRows is in flight at the freeze end up in the flushed table.  The sequence of
+// that entry is therefore part of the flushed state only if it is committed BEFORE the bracket is left; a CommitSequence
+// that runs after WriteRows returned (= after CompleteWrite) lets the table contain entry N while the manifest stores N-1:
+// after a crash entry N is replayed and applied a second time.  Decided per call site of CommitSequence.
+func sequenceInsideWriteBracket(c *eng.Ctx) {
+	p := c.P
+	c.Rule("ORDER-bracket", "tsdb{sequence committed inside the write bracket}", func() {
+		isCommit := func(p *eng.Prog, in ssa.Instruction) bool {
+			cl, ok := in.(ssa.CallInstruction)
+			if !ok {
+				return false
+			}
+			cc := cl.Common()
+			if cc.IsInvoke() {
+				return cc.Method.Name() == "CommitSequence" && strings.Contains(cc.Value.Type().String(), "DataFamily")
+			}
+			return cc.StaticCallee() != nil && p.FuncKey(cc.StaticCallee()) == dfT+".CommitSequence"
+		}
+		n := 0
+		for _, s := range p.SitesInProgram(isCommit) {
+			top := s.Fn
+			for top.Parent() != nil {
+				top = top.Parent()
+			}
+			if !eng.InModule(top) || strings.HasSuffix(p.FuncKey(top), "_mock") {
+				continue
+			}
+			n++
+			// inside a bracket: the same function acquired the write claim before and completes it afterwards
+			acq := p.Sites(s.Fn, invokeOn("", "AcquireWrite"))
+			inside := len(acq) > 0 && eng.DominatedBy(s.Fn, s.Instr, acq, nil)
+			if inside {
+				c.Check(true, "commit-in-bracket:"+p.FuncKey(top), s.Instr, s.Fn, "the sequence is committed while the entry's write claim is still held", "")
+				continue
+			}
+			key := c.Prop + "/ORDER-bracket/" + p.FuncKey(top) + "->" + dfT + ".CommitSequence"
+			c.Obls = append(c.Obls, eng.Obligation{Key: key, Rule: "ORDER-bracket", Site: p.InstrPos(s.Instr), Func: p.FuncKey(s.Fn),
+				Want:   "an entry's sequence is committed inside the AcquireWrite..CompleteWrite bracket of its rows (the flush waits for open brackets and captures the sequences at the freeze)",
+				Status: "violated", Config: p.Config,
+				Detail: "CommitSequence is called in " + p.FuncKey(top) + " after WriteRows returned, i.e. after the write bracket was left: a flush that freezes the memory database while WriteRows is in flight stores the table with the previous sequence"})
+		}
+		c.Check(n > 0, "commit-sites-found", nil, nil, "the call sites of CommitSequence were examined", "")
 	})
 }
 
